@@ -94,9 +94,20 @@ pub struct GenCtx {
     pub max_xorb_chunks: usize,
     /// soft cap of one file's size
     pub max_file: usize,
+    /// when non-zero, files are at least this large (big-file jobs)
+    pub min_file: usize,
 }
 
 fn size_class(rng: &mut Rng, c: &GenCtx) -> usize {
+    if c.min_file > 0 {
+        let xb = c.max_xorb_bytes;
+        let v = match rng.below(4) {
+            0 => xb + rng.urange(0, 2) - 1,
+            1 => 2 * xb + rng.urange(0, c.target),
+            _ => rng.urange(c.min_file, c.max_file),
+        };
+        return v.clamp(c.min_file, c.max_file);
+    }
     let t = c.target;
     let minc = t / 8;
     let maxc = t * 2;
